@@ -215,7 +215,7 @@ func runC01(c *core.Ctx) {
 					if ft.Expr == nil || !ft.Truth {
 						continue
 					}
-					if dc, isCall := core.Unparen(ft.Expr).(*ast.CallExpr); isCall && nodeRemove != nil && core.Callee(f.Pkg, dc) == nodeRemove.Obj {
+					if dc := core.CallOf(f, ft.Expr); dc != nil && nodeRemove != nil && core.Callee(f.Pkg, dc) == nodeRemove.Obj {
 						ok = true
 					}
 					if obj := core.ObjOf(f.Pkg, ft.Expr); obj != nil && nodeRemove != nil {
